@@ -24,10 +24,10 @@ Section Polar.
     - m 1%nat * (m 3%nat * m 8%nat - m 5%nat * m 6%nat)
     + m 2%nat * (m 3%nat * m 7%nat - m 4%nat * m 6%nat).
 
-  (* np.linalg.inv: raises LinAlgError on an exactly singular matrix; adjugate / det *)
+  (* np.linalg.inv: raises LinAlgError (a ValueError) on an exactly singular matrix; adjugate / det *)
   Definition inv3 (m : arr F) : res (arr F) :=
     let d := det3 m in
-    if eqb d zero then Err OtherError else
+    if eqb d zero then Err ValueError else
     Ok (mk_arr zero
       [(m 4%nat * m 8%nat - m 5%nat * m 7%nat) / d; (m 2%nat * m 7%nat - m 1%nat * m 8%nat) / d;
        (m 1%nat * m 5%nat - m 2%nat * m 4%nat) / d;
